@@ -213,7 +213,7 @@ Theorem elided_selfnest_not_parsed fparse crank ftext printable k n :
   exists text t,
     Formatter.format0 ftext printable (Z.to_nat formatter_default_maximum) (selfnest k n) = Ret text /\
     parse_source fparse crank text = PSyntax t /\
-    ttype_of t = Lexer.TError /\ tval t = [46] /\ tline t = 1 /\ tpos t = 10.
+    ttype_of t = Lexer.TError /\ tval t = [46] /\ tline t = 1 /\ tpos t = formatter_default_maximum + 2.
 Proof.
   intros Hn.
   rewrite (selfnest_stable ftext printable _ k n (S (Z.to_nat formatter_default_maximum)) Hn (Nat.lt_succ_diag_r _)).
